@@ -95,6 +95,14 @@ func genUniverse(r *vc.Rand, shape [][]int) ([]vrefl.File, vc.Val, []string) {
 					pk = "p" + d[1:len(d)-6]
 				}
 				me := vrefl.Method{Name: fmt.Sprintf("Do%d", m), CS: r.Chance(30), SS: r.Chance(30), In: pk + ".M", Out: f.Package + ".N"}
+				if r.Chance(5) {
+					// an inconsistent descriptor set: a type that no file declares (must end in an error report, never in a description)
+					if r.Bool() {
+						me.In = pk + ".Missing"
+					} else {
+						me.Out = f.Package + ".Missing"
+					}
+				}
 				for b := 0; b < r.Intn(3); b++ {
 					me.Bindings = append(me.Bindings, vrefl.Binding{Kind: r.Pick(kinds), Path: r.Pick(paths), Body: r.Pick([]string{"", "*", "field"}), RespBody: r.Pick([]string{"", "out"})})
 				}
